@@ -15,11 +15,13 @@ pub struct Input {
     pub ev: Ev,
     pub ph: Val,
     pub aux: u64,
+    /// the eight raw placeholder bytes, whatever the selector says
+    pub raw: u64,
     pub expr: String,
 }
 
 /// properties that have a fuzz stage
-pub const PROPS: [&str; 14] = ["C01", "C02", "C03", "C04", "C05", "C06", "C07", "C08", "C09", "C10", "C12", "C13", "C14", "C20"];
+pub const PROPS: [&str; 15] = ["C01", "C02", "C03", "C04", "C05", "C06", "C07", "C08", "C09", "C10", "C12", "C13", "C14", "C18", "C20"];
 
 fn rd(d: &[u8], at: usize, n: usize) -> u128 {
     let mut v = 0u128;
@@ -59,7 +61,7 @@ pub fn decode(data: &[u8]) -> Option<Input> {
     };
     let text = String::from_utf8_lossy(&data[HEADER..]);
     let expr: String = text.chars().take(256).collect();
-    Some(Input { ev, ph, aux, expr })
+    Some(Input { ev, ph, aux, raw: rd(data, 3, 8) as u64, expr })
 }
 
 /// inverse of `decode` for seed corpora (pool placeholders only)
@@ -107,6 +109,9 @@ pub fn cases(prop: &str, i: &Input) -> Vec<Case> {
     let one = |kind: &str| vec![Case::new(ev, kind, s, ph)];
     match prop {
         "C01" | "C02" | "C04" | "C10" => one("fuzz"),
+        // Number::from on the raw bits the fuzzer supplies: comparisons inside the conversion guide it
+        // (value profile) towards sparse equalities between parts of the double
+        "C18" => vec![Case::new(Ev::Num, "from-f64/fuzz", "", Val::NF(f64::from_bits(i.raw))), Case::new(Ev::Num, "from-i64", "", Val::NI(i.raw as i64))],
         "C03" => one("w4"),
         "C05" | "C06" | "C07" | "C09" => {
             let want = match prop {
